@@ -627,8 +627,6 @@ class BundleV2(object):
         return self.store_tiles([tile], dimensions=dimensions)
 
     def store_tiles(self, tiles, dimensions=None):
-        self._init_index()
-
         tiles_data = []
         for t in tiles:
             if t.stored:
@@ -639,6 +637,9 @@ class BundleV2(object):
 
         with FileLock(self.lock_filename, directory_permissions=self.directory_permissions,
                       file_permissions=self.file_permissions, remove_on_unlock=True):
+            # _readwrite initializes the bundle file if necessary. This needs to be done
+            # while holding the lock, otherwise a second process can replace a bundle
+            # that already contains tiles with an empty one.
             with self._readwrite() as fh:
                 for tile_coord, data in tiles_data:
                     self._store_tile(fh, tile_coord, data, dimensions=dimensions)
@@ -649,7 +650,6 @@ class BundleV2(object):
         if tile.coord is None:
             return True
 
-        self._init_index()
         with FileLock(self.lock_filename, directory_permissions=self.directory_permissions,
                       file_permissions=self.file_permissions, remove_on_unlock=True):
             with self._readwrite() as fh:
